@@ -407,7 +407,10 @@ Proof.
 Qed.
 
 Lemma note_inbound_flags c p : flags (note_inbound c p) = flags c.
-Proof. unfold note_inbound. destruct (negb _); destruct (k_qos p =? 2); reflexivity. Qed.
+Proof. unfold note_inbound. destruct (negb _); reflexivity. Qed.
+
+Lemma note_handled_flags c p : flags (note_handled c p) = flags c.
+Proof. unfold note_handled. destruct (k_qos p =? 2); reflexivity. Qed.
 
 Lemma recv_publish_v5_TF g c pr : TF c (recv_publish_v5 g c pr).
 Proof.
@@ -417,6 +420,8 @@ Proof.
   destruct (resolve_recv_alias g (note_inbound c p) p) as [[[[c1 q] stop] e0]|]; [|exact I].
   cbn [bindr]. destruct H0 as [H0 Hnil]. destruct stop; [exact H0|].
   rewrite (Hnil eq_refl) in H0. cbn [trackb] in H0. injection H0 as H0a H0b H0c.
+  cbv zeta. pose proof (note_handled_flags c1 p) as Hnh. unfold flags in Hnh. injection Hnh as Hn1 Hn2 Hn3.
+  remember (note_handled c1 p) as c1' eqn:Ec1'. clear Ec1'.
   unfold TF.
   repeat match goal with
          | |- context [if ?b then _ else _] => destruct b eqn:?
@@ -425,7 +430,9 @@ Proof.
          | |- context [refresh_pingreq_recv ?cc] =>
              let H := fresh "Href" in pose proof (refresh_TF cc) as H; destruct (refresh_pingreq_recv cc) as [? ?]; cbn [TF] in H
          | |- _ => progress cbn [bindr]
-         end; try exact I; unfold flags in *; conn_simpl; rewrite ?H0a, ?H0b, ?H0c; tf_loop; reflexivity.
+         end; try exact I; unfold flags in *; conn_simpl;
+    repeat match goal with H : trackb (c_t_send c1', _, _) _ = _ |- _ => rewrite Hn1, Hn2, Hn3 in H end;
+    rewrite ?H0a, ?H0b, ?H0c; tf_loop; reflexivity.
 Qed.
 
 Lemma resume_or_clear_TF c sp : TF c (resume_or_clear c sp).
